@@ -405,7 +405,7 @@ SELFTEST_DUP = {"PacketScanObsTrace": ("WriteBegin", "WriteEnd"), "AppScanObsTra
 
 def binding_selftest(ctx, module, runs, cfg=None, env=None, timeout=900):
     names = SELFTEST_DUP.get(module)
-    if os.environ.get("VF_SELFTEST", "0") != "1":
+    if os.environ.get("VF_SELFTEST", "1") != "1":
         return
     if not names or getattr(ctx, "_selftested", None) is not None and module in ctx._selftested:
         return
@@ -433,7 +433,7 @@ def binding_selftest(ctx, module, runs, cfg=None, env=None, timeout=900):
 
 def selftest_event(ctx, module, event, what, cfg=None, env=None, timeout=600):
     """binding self-test for specifications that judge one event at a time: a corrupted copy of an accepted event must be rejected"""
-    if os.environ.get("VF_SELFTEST", "0") != "1":
+    if os.environ.get("VF_SELFTEST", "1") != "1":
         return
     p = os.path.join(ctx.scratch, "selftest-%s.ndjson" % module)
     write_ndjson(p, [event])
